@@ -7,6 +7,10 @@ use gvharness::chainkit::*;
 use gvharness::*;
 use std::collections::{BTreeMap, BTreeSet};
 
+#[path = "../chainrep.rs"]
+mod chainrep;
+use chainrep::*;
+
 const MATURITY: u64 = 3;
 const N_INVALID_KINDS: u64 = 26;
 
@@ -707,6 +711,7 @@ fn run_history(out: &mut Out, rng: &mut Rng, work: &str, hist: usize, big: bool)
 	let valid = g.valid.clone();
 	let invalid = g.invalid.clone();
 	let kit = &g.kit;
+	let mut g_stats: BTreeMap<String, u64> = BTreeMap::new();
 
 	// the unique max-work tip among valid blocks (first-seen wins ties: only claimed when unique)
 	let maxw = valid.iter().map(|i| kit.blks[*i].work).max().unwrap_or(0);
@@ -775,12 +780,16 @@ fn run_history(out: &mut Out, rng: &mut Rng, work: &str, hist: usize, big: bool)
 				evs.push(Ev::Blk(*rng.pick(&valid)));
 			}
 		}
-		let mut subj = Subject::new(&format!("{}/{}_{}", work, name, hist), &kit.genesis);
+		let mut subj = new_rec_subject(&format!("{}/{}_{}", work, name, hist), &kit.genesis);
 		let mut twin = if with_invalid {
-			Some(Subject::new(&format!("{}/{}_{}", work, twin_name, hist), &kit.genesis))
+			Some(new_rec_subject(&format!("{}/{}_{}", work, twin_name, hist), &kit.genesis))
 		} else {
 			None
 		};
+		// parameters of the reporting-path observations come from their own stream, so that the
+		// histories themselves do not depend on them
+		let mut rrng = Rng::new(seed_from_env() ^ 0x5eed_c0de ^ ((hist as u64) << 8) ^ si as u64);
+		discard_status();
 		out.raw(&format!("chain new {}", name));
 		if twin.is_some() {
 			out.raw(&format!("chain new {}", twin_name));
@@ -798,6 +807,7 @@ fn run_history(out: &mut Out, rng: &mut Rng, work: &str, hist: usize, big: bool)
 					// (inputs as bare commitments); its twin gets the in-memory form
 					// (a block whose fault IS what its inputs claim is delivered in the form that carries the claim)
 					let claims = kit.blks[*i].tags.iter().any(|t| t.starts_with("kind:input-features-wrong"));
+					let head_before = subj.c().head().unwrap().last_block_h;
 					// even subjects: the features-and-commit form with the right claims (v2 / JSON)
 					let r = if claims {
 						subj.deliver_block(&kit.blks[*i].block)
@@ -807,6 +817,16 @@ fn run_history(out: &mut Out, rng: &mut Rng, work: &str, hist: usize, big: bool)
 						subj.deliver_block_features(kit, &kit.blks[*i].block)
 					};
 					out.line(&format!("chain deliver {} b{}", name, i), &r);
+					// C03: what the adapter was told during this call (the block, then every orphan it connected)
+					let (sl, evs_told) = drain_status(kit);
+					out.line(&format!("chain status {}", name), &sl);
+					status_oracle(out, kit, &name, head_before, &evs_told, &mut g_stats);
+					if r.starts_with("err") && !evs_told.is_empty() {
+						out.raw(&format!(
+							"#ORACLE-FAIL C03 a refused delivery notified the adapter: hist={} subject={} b{} result={} notifications={}",
+							hist, name, i, r, sl
+						));
+					}
 					if !kit.blks[*i].valid && r.starts_with("ok") {
 						out.raw(&format!(
 							"#ORACLE-FAIL C06 invalid block accepted: hist={} subject={} b{} tags={:?} result={}",
@@ -824,7 +844,7 @@ fn run_history(out: &mut Out, rng: &mut Rng, work: &str, hist: usize, big: bool)
 					out.line(&format!("chain hdr {} b{}", name, i), &r);
 				}
 				Ev::Reopen => {
-					let r = match subj.reopen() {
+					let r = match reopen_rec(&mut subj) {
 						Ok(_) => "ok".to_string(),
 						Err(e) => format!("err:{}", e),
 					};
@@ -840,6 +860,8 @@ fn run_history(out: &mut Out, rng: &mut Rng, work: &str, hist: usize, big: bool)
 			}
 			let obs = subj.obs(kit);
 			out.line(&format!("chain obs {}", name), &obs);
+			// C02: every other way the node reports its unspent outputs
+			report_lines(out, &mut rrng, kit, &subj, &name, &mut g_stats);
 			if let Some((o0, r0)) = before {
 				// C06: a rejected input leaves best-chain state untouched (header head may move
 				// only for a valid header: compare head + utxo + roots)
@@ -860,6 +882,8 @@ fn run_history(out: &mut Out, rng: &mut Rng, work: &str, hist: usize, big: bool)
 						Ev::Blk(i) => {
 							let r = tw.deliver_block(&kit.blks[*i].block);
 							out.line(&format!("chain deliver {} b{}", twin_name, i), &r);
+							let (sl, _) = drain_status(kit);
+							out.line(&format!("chain status {}", twin_name), &sl);
 						}
 						Ev::Hdr(i) => {
 							let r = tw.deliver_header(&kit.blks[*i].block.header);
@@ -867,7 +891,7 @@ fn run_history(out: &mut Out, rng: &mut Rng, work: &str, hist: usize, big: bool)
 						}
 						Ev::Reopen => {
 							// a restart forgets the in-memory orphan pool: the twin restarts too
-							let r = match tw.reopen() {
+							let r = match reopen_rec(tw) {
 								Ok(_) => "ok".to_string(),
 								Err(e) => format!("err:{}", e),
 							};
@@ -912,8 +936,11 @@ fn run_history(out: &mut Out, rng: &mut Rng, work: &str, hist: usize, big: bool)
 			for i in &valid {
 				let r = subj.deliver_block(&kit.blks[*i].block);
 				out.line(&format!("chain deliver {} b{}", name, i), &r);
+				let (sl, _) = drain_status(kit);
+				out.line(&format!("chain status {}", name), &sl);
 			}
 			out.line(&format!("chain obs {}", name), &subj.obs(kit));
+			report_lines(out, &mut rrng, kit, &subj, &name, &mut g_stats);
 		}
 		// quiescence: full validation
 		let v = match subj.c().validate(false) {
@@ -952,7 +979,10 @@ fn run_history(out: &mut Out, rng: &mut Rng, work: &str, hist: usize, big: bool)
 	}
 	*g.stats.entry("blocks:valid".into()).or_insert(0) += valid.len() as u64;
 	*g.stats.entry("blocks:invalid".into()).or_insert(0) += invalid.len() as u64;
-	let st = g.stats.clone();
+	let mut st = g.stats.clone();
+	for (k, v) in g_stats {
+		*st.entry(k).or_insert(0) += v;
+	}
 	drop(g);
 	st
 }
@@ -1158,10 +1188,14 @@ fn run_long(out: &mut Out, rng: &mut Rng, work: &str, user: bool, hdr_ahead: boo
 		let r = twin.deliver_block(&kit.blks[*i].block);
 		out.line(&format!("chain deliver t0 b{}", i), &r);
 	}
+	let rstats: std::cell::RefCell<BTreeMap<String, u64>> = std::cell::RefCell::new(BTreeMap::new());
+	let rrng = std::cell::RefCell::new(Rng::new(seed_from_env() ^ 0x5eed_c0de));
 	let check_pair = |out: &mut Out, subj: &Subject, twin: &Subject, stage: &str| {
 		let (o, r) = (subj.obs(&kit), subj.roots());
 		let (to, tr) = (twin.obs(&kit), twin.roots());
 		out.line("chain obs s0", &o);
+		// C02: the other reporting paths of the unspent set, on the compacted node
+		report_lines(out, &mut rrng.borrow_mut(), &kit, subj, "s0", &mut rstats.borrow_mut());
 		if o != to || r != tr {
 			out.raw(&format!(
 				"#ORACLE-FAIL C08 compacted node differs from the never-compacted twin at stage {}: s=[{} {}] t=[{} {}]",
@@ -1327,6 +1361,9 @@ fn run_long(out: &mut Out, rng: &mut Rng, work: &str, user: bool, hdr_ahead: boo
 	*stats.entry("long:blocks".into()).or_insert(0) += kit.blks.len() as u64;
 	*stats.entry("long:outputs".into()).or_insert(0) += kit.outs.len() as u64;
 	*stats.entry("long:spent-plain".into()).or_insert(0) += spent_plain.len() as u64;
+	for (k, v) in rstats.into_inner() {
+		*stats.entry(k).or_insert(0) += v;
+	}
 	stats
 }
 
@@ -1581,17 +1618,30 @@ fn run_deep(out: &mut Out, rng: &mut Rng, work: &str) -> BTreeMap<String, u64> {
 	*stats.entry("deep:main-chain-blocks".into()).or_insert(0) += (trunk.len() - 1) as u64;
 	*stats.entry("deep:fork-blocks".into()).or_insert(0) += fork.len() as u64;
 	*stats.entry("deep:fork-root-below-tip".into()).or_insert(0) += (trunk.len() - 1 - 5) as u64;
+	let rstats: std::cell::RefCell<BTreeMap<String, u64>> = std::cell::RefCell::new(BTreeMap::new());
+	let rrng = std::cell::RefCell::new(Rng::new(seed_from_env() ^ 0x5eed_c0de));
 	let deliver = |out: &mut Out, subj: &Subject, name: &str, ids: &[usize], obs_every: usize| {
 		for (k, i) in ids.iter().enumerate() {
+			discard_status();
+			let head_before = subj.c().head().unwrap().last_block_h;
 			let r = subj.deliver_block(&kit.blks[*i].block);
 			out.line(&format!("chain deliver {} b{}", name, i), &r);
+			// C03: the notifications of this call (up to MAX_ORPHAN_SIZE + 1 of them when the parent of a
+			// full orphan pool arrives)
+			let (sl, told) = drain_status(&kit);
+			out.line(&format!("chain status {}", name), &sl);
+			status_oracle(out, &kit, name, head_before, &told, &mut rstats.borrow_mut());
+			if told.len() > 1 {
+				*rstats.borrow_mut().entry(format!("status:notifications-in-one-call={}", told.len())).or_insert(0) += 1;
+			}
 			if (k + 1) % obs_every == 0 || k + 1 == ids.len() {
 				out.line(&format!("chain obs {}", name), &subj.obs(&kit));
+				report_lines(out, &mut rrng.borrow_mut(), &kit, subj, name, &mut rstats.borrow_mut());
 			}
 		}
 	};
 	// (1) deep fork: main chain first, then the fork; and the other way round
-	let s0 = Subject::new(&format!("{}/deep_s0", work), &kit.genesis);
+	let s0 = new_rec_subject(&format!("{}/deep_s0", work), &kit.genesis);
 	out.raw("chain new s0");
 	deliver(out, &s0, "s0", &trunk[1..], 11);
 	for i in &stale_invalid {
@@ -1612,7 +1662,7 @@ fn run_deep(out: &mut Out, rng: &mut Rng, work: &str) -> BTreeMap<String, u64> {
 		out.line("chain obs s0", &s0.obs(&kit));
 	}
 	deliver(out, &s0, "s0", &fork, 1);
-	let s1 = Subject::new(&format!("{}/deep_s1", work), &kit.genesis);
+	let s1 = new_rec_subject(&format!("{}/deep_s1", work), &kit.genesis);
 	out.raw("chain new s1");
 	deliver(out, &s1, "s1", &trunk[1..=5], 5);
 	deliver(out, &s1, "s1", &fork, 1);
@@ -1635,7 +1685,7 @@ fn run_deep(out: &mut Out, rng: &mut Rng, work: &str) -> BTreeMap<String, u64> {
 	// (2) exactly MAX_ORPHAN_SIZE waiting orphans: blocks 2..=N+1 of the line in random order with
 	// a few duplicates, then block 1; reference: in order
 	if line.len() == n_orph + 2 {
-		let s2 = Subject::new(&format!("{}/deep_s2", work), &kit.genesis);
+		let s2 = new_rec_subject(&format!("{}/deep_s2", work), &kit.genesis);
 		out.raw("chain new s2");
 		let mut later: Vec<usize> = line[2..].to_vec();
 		for i in (1..later.len()).rev() {
@@ -1655,7 +1705,7 @@ fn run_deep(out: &mut Out, rng: &mut Rng, work: &str) -> BTreeMap<String, u64> {
 		deliver(out, &s2, "s2", &later, 50);
 		*stats.entry("deep:simultaneous-orphans".into()).or_insert(0) += s2.c().orphans_len() as u64;
 		deliver(out, &s2, "s2", &line[1..2], 1);
-		let s3 = Subject::new(&format!("{}/deep_s3", work), &kit.genesis);
+		let s3 = new_rec_subject(&format!("{}/deep_s3", work), &kit.genesis);
 		out.raw("chain new s3");
 		deliver(out, &s3, "s3", &line[1..], 50);
 		if s2.obs(&kit) != s3.obs(&kit) || s2.roots() != s3.roots() {
@@ -1667,11 +1717,72 @@ fn run_deep(out: &mut Out, rng: &mut Rng, work: &str) -> BTreeMap<String, u64> {
 			));
 		}
 	}
+	// (2b) BEYOND the capacity of the orphan pool (OrphanBlockPool::add and its eviction, compared
+	// with Model/ChainOrphans.lean): the 200 blocks of the line wait, then blocks of the main chain
+	// (heights 2..13, their parent body missing too) arrive one by one, then evicted blocks again
+	if line.len() == n_orph + 2 && trunk.len() > 14 {
+		let s9 = new_rec_subject(&format!("{}/deep_s9", work), &kit.genesis);
+		out.raw("chain opool s9 new");
+		for i in line[1..].iter().chain(trunk[1..14].iter()) {
+			let _ = s9.deliver_header(&kit.blks[*i].block.header);
+		}
+		let mut order: Vec<usize> = line[2..].to_vec();
+		for i in (1..order.len()).rev() {
+			let j = rng.below(i as u64 + 1) as usize;
+			order.swap(i, j);
+		}
+		// a duplicate inside the capacity, the main-chain blocks beyond it, evicted ones again
+		let dup = order[7];
+		order.insert(20, dup);
+		order.extend(trunk[2..14].iter().cloned());
+		let tail: Vec<usize> = line[line.len() - 6..].to_vec();
+		order.extend(tail);
+		let mut parked = 0u64;
+		for i in &order {
+			let r = s9.deliver_block(&kit.blks[*i].block);
+			if r != "err:Orphan" {
+				out.raw(&format!("#ORACLE-FAIL C03 harness: block b{} whose parent body is missing was not parked as an orphan: {}", i, r));
+				continue;
+			}
+			parked += 1;
+			out.line(
+				&format!("chain opool s9 add b{} h={}", i, kit.blks[*i].height),
+				&format!("len={} evicted={}", s9.c().orphans_len(), s9.c().orphans_evicted_len()),
+			);
+		}
+		let all: Vec<usize> = line[2..].iter().chain(trunk[2..14].iter()).cloned().collect();
+		let has: Vec<String> = all.iter().map(|i| if s9.c().is_orphan(&kit.blks[*i].block.hash()) { "1".to_string() } else { "0".to_string() }).collect();
+		let ids: Vec<String> = all.iter().map(|i| format!("b{}", i)).collect();
+		out.line(&format!("chain opool s9 has [{}]", ids.join(",")), &format!("[{}]", has.join(",")));
+		// the parent of the line arrives: exactly the blocks still waiting in an unbroken run of
+		// heights are connected
+		let mut expect = line[1];
+		for i in &line[2..] {
+			if s9.c().is_orphan(&kit.blks[*i].block.hash()) {
+				expect = *i;
+			} else {
+				break;
+			}
+		}
+		discard_status();
+		let r = s9.deliver_block(&kit.blks[line[1]].block);
+		let (_, told) = drain_status(&kit);
+		let got = s9.head_str(&kit);
+		if !r.starts_with("ok") || !got.starts_with(&format!("head=b{} ", expect)) {
+			out.raw(&format!(
+				"#ORACLE-FAIL C03 orphan pool beyond its capacity: after the parent (b{}: {}) the node is at [{}] but the blocks still waiting connect up to b{}",
+				line[1], r, got, expect
+			));
+		}
+		*stats.entry("deep:orphans-offered-beyond-capacity".into()).or_insert(0) += parked;
+		*stats.entry("deep:orphans-evicted".into()).or_insert(0) += s9.c().orphans_evicted_len() as u64;
+		*stats.entry(format!("deep:connected-after-eviction={}", told.len())).or_insert(0) += 1;
+	}
 	// (3) header sync in overlapping chunks (a chunk starting with a known header and ending below
 	// the current header head), then bodies children-first: must end on the most-work chain
 	if small.len() == 6 {
 		let (m1, m2, f1, f2, f3, f4) = (small[0], small[1], small[2], small[3], small[4], small[5]);
-		let s4 = Subject::new(&format!("{}/deep_s4", work), &kit.genesis);
+		let s4 = new_rec_subject(&format!("{}/deep_s4", work), &kit.genesis);
 		out.raw("chain new s4");
 		for chunk in [vec![f1], vec![m1, m2], vec![f1, f2, f3], vec![f4]] {
 			let hs: Vec<grin_core::core::BlockHeader> = chunk.iter().map(|i| kit.blks[*i].block.header.clone()).collect();
@@ -1683,7 +1794,7 @@ fn run_deep(out: &mut Out, rng: &mut Rng, work: &str) -> BTreeMap<String, u64> {
 			out.line("chain obs s4", &s4.obs(&kit));
 		}
 		deliver(out, &s4, "s4", &[m1, m2, f1, f4, f3, f2], 1);
-		let s5 = Subject::new(&format!("{}/deep_s5", work), &kit.genesis);
+		let s5 = new_rec_subject(&format!("{}/deep_s5", work), &kit.genesis);
 		out.raw("chain new s5");
 		deliver(out, &s5, "s5", &[m1, m2, f1, f2, f3, f4], 1);
 		if s4.obs(&kit) != s5.obs(&kit) || s4.roots() != s5.roots() {
@@ -1697,7 +1808,7 @@ fn run_deep(out: &mut Out, rng: &mut Rng, work: &str) -> BTreeMap<String, u64> {
 		// (4) a same-hash twin: the genuine header of fork block f2 with the body of another block
 		// (the block hash covers the header only). It must be refused and leave NOTHING behind: the
 		// genuine f2 and the rest of its fork are accepted afterwards and the node reorganises onto f4
-		let s6 = Subject::new(&format!("{}/deep_s6", work), &kit.genesis);
+		let s6 = new_rec_subject(&format!("{}/deep_s6", work), &kit.genesis);
 		out.raw("chain new s6");
 		deliver(out, &s6, "s6", &[m1, m2, f1], 1);
 		let mut twin = kit.blks[m2].block.clone();
@@ -1729,7 +1840,7 @@ fn run_deep(out: &mut Out, rng: &mut Rng, work: &str) -> BTreeMap<String, u64> {
 	// its largest position do not), then work that is rolled back (a refused block, a full
 	// validation), then a restart: the reported unspent set must stay that of the winning sibling
 	if sib.len() == 7 {
-		let mut s7 = Subject::new(&format!("{}/deep_s7", work), &kit.genesis);
+		let mut s7 = new_rec_subject(&format!("{}/deep_s7", work), &kit.genesis);
 		out.raw("chain new s7");
 		deliver(out, &s7, "s7", &sib, 1);
 		// a refused block on top of the winner: its genuine header with the loser's body
@@ -1764,7 +1875,7 @@ fn run_deep(out: &mut Out, rng: &mut Rng, work: &str) -> BTreeMap<String, u64> {
 		};
 		out.line("chain validate s7", &v);
 		out.line("chain obs s7", &s7.obs(&kit));
-		let rr = match s7.reopen() {
+		let rr = match reopen_rec(&mut s7) {
 			Ok(_) => "ok".to_string(),
 			Err(e) => format!("err:{}", e),
 		};
@@ -1778,7 +1889,7 @@ fn run_deep(out: &mut Out, rng: &mut Rng, work: &str) -> BTreeMap<String, u64> {
 	// changes; the same spend with the right features and in commit-only form is accepted; the
 	// maturity check is not dodged by claiming a coinbase plain
 	if let Some((x, y)) = ft_xy {
-		let s8 = Subject::new(&format!("{}/deep_s8", work), &kit.genesis);
+		let s8 = new_rec_subject(&format!("{}/deep_s8", work), &kit.genesis);
 		out.raw("chain new s8");
 		deliver(out, &s8, "s8", &ft, 5);
 		let strip = |s: String| -> String { s.split(' ').filter(|t| !t.starts_with("hhead=")).collect::<Vec<_>>().join(" ") };
@@ -1861,6 +1972,9 @@ fn run_deep(out: &mut Out, rng: &mut Rng, work: &str) -> BTreeMap<String, u64> {
 			Err(e) => format!("err:{}", error_class(&e)),
 		};
 		out.line("chain validate s8", &v);
+	}
+	for (k, v) in rstats.into_inner() {
+		*stats.entry(k).or_insert(0) += v;
 	}
 	stats
 }
@@ -2470,6 +2584,7 @@ fn run_c13(out: &mut Out, rng: &mut Rng, work: &str) -> BTreeMap<String, u64> {
 	let all: Vec<usize> = (1..g.kit.blks.len()).collect();
 	let kit = &g.kit;
 	let all: Vec<usize> = all.into_iter().filter(|i| Some(*i) != heavy_short && !fat.contains(i)).collect();
+	let mut r_stats: BTreeMap<String, u64> = BTreeMap::new();
 	for si in 0..5 {
 		let name = format!("s{}", si);
 		let order: Vec<usize> = if si == 0 || si >= 2 {
@@ -2494,7 +2609,8 @@ fn run_c13(out: &mut Out, rng: &mut Rng, work: &str) -> BTreeMap<String, u64> {
 			}
 			res
 		};
-		let mut subj = Subject::new(&format!("{}/c13_{}", work, name), &kit.genesis);
+		let mut subj = new_rec_subject(&format!("{}/c13_{}", work, name), &kit.genesis);
+		let mut rrng = Rng::new(seed_from_env() ^ 0x5eed_c0de ^ si as u64);
 		out.raw(&format!("chain new {}", name));
 		let mut announced = false;
 		for i in order {
@@ -2516,12 +2632,21 @@ fn run_c13(out: &mut Out, rng: &mut Rng, work: &str) -> BTreeMap<String, u64> {
 					out.line(&format!("chain obs {}", name), &subj.obs(kit));
 				}
 			}
+			discard_status();
+			let head_before = subj.c().head().unwrap().last_block_h;
 			let r = subj.deliver_block(&kit.blks[i].block);
 			out.line(&format!("chain deliver {} b{}", name, i), &r);
+			// C03: the notification; s2 / s3 extend the body chain while the header head sits on another fork
+			let (sl, told) = drain_status(kit);
+			out.line(&format!("chain status {}", name), &sl);
+			status_oracle(out, kit, &name, head_before, &told, &mut r_stats);
 			out.line(&format!("chain obs {}", name), &subj.obs(kit));
+			if r.starts_with("ok") {
+				report_lines(out, &mut rrng, kit, &subj, &name, &mut r_stats);
+			}
 			if si == 4 && r == "ok:head" {
 				// s4: the node restarts after every block that became head
-				let rr = match subj.reopen() {
+				let rr = match reopen_rec(&mut subj) {
 					Ok(_) => "ok".to_string(),
 					Err(e) => format!("err:{}", e),
 				};
@@ -2634,23 +2759,18 @@ fn run_c13(out: &mut Out, rng: &mut Rng, work: &str) -> BTreeMap<String, u64> {
 				}
 			}
 		}
-		if si == 3 {
-			for x in &fat {
-				let r = subj.deliver_block(&kit.blks[*x].block);
-				out.line(&format!("chain deliver {} b{}", name, x), &r);
-				out.line(&format!("chain obs {}", name), &subj.obs(kit));
-			}
-		} else if si != 2 {
-			if let Some(x) = heavy_short {
-				// the heavy fork's body arrives last everywhere: every subject reorganises onto it
-				let r = subj.deliver_block(&kit.blks[x].block);
-				out.line(&format!("chain deliver {} b{}", name, x), &r);
-				out.line(&format!("chain obs {}", name), &subj.obs(kit));
-			}
-		} else if let Some(x) = heavy_short {
-			let r = subj.deliver_block(&kit.blks[x].block);
+		let last: Vec<usize> = if si == 3 { fat.clone() } else { heavy_short.iter().cloned().collect() };
+		// s3: the fat fork's bodies; elsewhere the heavy fork's body arrives last: every subject reorganises onto it
+		for x in &last {
+			discard_status();
+			let head_before = subj.c().head().unwrap().last_block_h;
+			let r = subj.deliver_block(&kit.blks[*x].block);
 			out.line(&format!("chain deliver {} b{}", name, x), &r);
+			let (sl, told) = drain_status(kit);
+			out.line(&format!("chain status {}", name), &sl);
+			status_oracle(out, kit, &name, head_before, &told, &mut r_stats);
 			out.line(&format!("chain obs {}", name), &subj.obs(kit));
+			report_lines(out, &mut rrng, kit, &subj, &name, &mut r_stats);
 		}
 		let v = match subj.c().validate(false) {
 			Ok(_) => "ok".to_string(),
@@ -2659,7 +2779,11 @@ fn run_c13(out: &mut Out, rng: &mut Rng, work: &str) -> BTreeMap<String, u64> {
 		out.line(&format!("chain validate {}", name), &v);
 	}
 	*g.stats.entry("c13:probe-transactions".into()).or_insert(0) += probes.len() as u64;
-	g.stats.clone()
+	let mut st = g.stats.clone();
+	for (k, v) in r_stats {
+		*st.entry(k).or_insert(0) += v;
+	}
+	st
 }
 
 // ---------------------------------------------------------------------------------------------
